@@ -49,6 +49,46 @@ def c14_term(fam, t, st: Stats):
             st.inc("transitions")
             if oo[0] == "miss":
                 st.violation(case(t, {v: 3 for v in vs}, "tree", lab, "number or DomainError", oo, f"{lab} -> {oo}"))
+    # pieces: every sub-expression object of the built expression, used by itself afterwards
+    for share in (False, True):
+        root = A.build(t, share)
+        stack = [(t, root)]
+        while stack:
+            sub, obj = stack.pop()
+            kids_t = M.children(sub)
+            kids_o = _kids(obj)
+            for ct, co in zip(kids_t, kids_o):
+                stack.append((ct, co))
+            if sub is t:
+                continue
+            n_sub = len(M.variables(sub))
+            o1 = A.outcome(lambda: obj.at(3))
+            o2 = A.construct(lambda: Derivative(obj))
+            st.inc("transitions", 2)
+            st.inc("piece_uses")
+            accepted1 = o1[0] in ("val", "dom")
+            accepted2 = o2[0] == "ok"
+            overflow = (o1[0] == "exc" and o1[1] == "OverflowError")
+            if n_sub <= 1 and not overflow and not (accepted1 and accepted2):
+                st.violation(case(t, {}, f"share={share}", "sub-expression used by itself", "accepted", [o1, o2[0]],
+                                  f"the sub-expression {M.show(sub)} has {n_sub} variable(s) but, after being used inside "
+                                  f"{M.show(t)}, at(3) -> {o1} and Derivative(...) -> {o2[0]}"))
+            if n_sub > 1 and (accepted1 or accepted2):
+                st.violation(case(t, {}, f"share={share}", "sub-expression used by itself", "rejected", [o1, o2[0]],
+                                  f"the sub-expression {M.show(sub)} has {n_sub} variables but a bare number / Derivative was accepted"))
+    # one persistent object evaluated at every subset of its coordinates in turn
+    persistent = A.build(t)
+    for k in list(range(nv + 1)) + list(range(nv - 1, -1, -1)):
+        for sup in itertools.combinations(vs, k):
+            env = {name: VAL + i for i, name in enumerate(sup)}
+            o = A.outcome(lambda: persistent.at(pt(env)))
+            st.inc("transitions")
+            if len(sup) < nv and o[0] == "val":
+                st.violation(case(t, env, "persistent", "at(Point) on a reused object", "CoordinateMissing (or DomainError)", o,
+                                  f"point lacks {sorted(set(vs) - set(sup))} but a previously used object returned {o}"))
+            if len(sup) == nv and o[0] == "miss":
+                st.violation(case(t, env, "persistent", "at(Point) on a reused object", "number or DomainError", o,
+                                  f"all variables supplied but a previously used object raised CoordinateMissing"))
     # every subset of the variables supplied x extra coordinate x differentiation variable
     for k in range(nv + 1):
         for sup in itertools.combinations(vs, k):
@@ -83,6 +123,16 @@ def c14_term(fam, t, st: Stats):
                             st.violation(case(t, env, "tree", label, "number or DomainError", oo,
                                               f"all occurring variables supplied (differentiating by {v}) but {label} -> {oo}",
                                               {"variable": v}))
+
+
+def _kids(n):
+    if hasattr(n, "_inners"):
+        return n._inners
+    if hasattr(n, "_left"):
+        return (n._left, n._right)
+    if hasattr(n, "_inner"):
+        return (n._inner,)
+    return ()
 
 
 NAMES_OK_EXPECT = None
